@@ -144,7 +144,7 @@ def dfxp_apos(ctx, report):
 def capture(ctx, report, folder):
     sites = [(DFXP, "DFXPReader._convert_tag_to_node"), (SAMI, "SAMIReader._translate_tag")]
     for path, q in sites:
-        fn = ctx.index.get_function(path, q)
+        fn = ctx.index.get_function(path, q, inline=True)
         report.covered(fn)
         uses = [u for u in regex_uses(fn, folder) if u.method in ("search", "match", "fullmatch")]
         if len(uses) != 1:
